@@ -76,11 +76,13 @@ def ids(shape, dtype='int32', start=0):
     return (numpy.arange(int(numpy.prod(shape)), dtype=dtype) + start).reshape(shape)
 
 
-def choose_hits(ctx, cv, polygons):
-    """symbolic hit set behind the STRtree contract; returns (hits list of bools, clip geometry candidates)"""
+def choose_hits(ctx, cv, polygons, fixed=None):
+    """symbolic hit set behind the STRtree contract; returns (hits list of bools, clip geometry candidates).
+    fixed: {cell: bool} - cells whose hit is given (larger grids: a fixed frame, symbolic interior)"""
     N = len(polygons)
     has = [p is not None for p in polygons]
-    hits = [ctx.bool(f'hit{n}') if has[n] else False for n in range(N)]
+    fixed = fixed or {}
+    hits = [(fixed[n] if n in fixed else ctx.bool(f'hit{n}')) if has[n] else False for n in range(N)]
     chosen = [n for n in range(N) if has[n] and bool(hits[n])]         # forks
     if ctx.symbolic:
         tree = geo.StubTree(polygons, {n: SymBool(n in chosen) for n in range(N) if has[n]})
